@@ -388,12 +388,14 @@ pub fn generate(kind: &str, tier: &str, seed: u64, shard: u64, nshards: u64, pat
             t.emit(&srv.input(json!({"m":"winack","v":w(v)}), &b));
         }
         let n = rng.range(5, 40);
+        let mut prev_probe = probe_json(&srv.s);
         for _ in 0..n {
             let e = random_step(&mut rng, &mut srv, &padlens);
             // a panic poisons the session; an Err from handle_input may have discarded packets that
             // were already serialized (finding K1, judged under C18), after which the peer decoder
             // of this harness can no longer follow: end the run in both cases
-            let dead = e["res"].as_str().map(|x| x.starts_with("panic") || (e["ev"] == "In" && x.starts_with("err"))).unwrap_or(false);
+            let dead = e["res"].as_str().map(|x| x.starts_with("panic") || (e["ev"] == "In" && x.starts_with("err") && lost_ack(&prev_probe, &e))).unwrap_or(false);
+            prev_probe = e["probe"].clone();
             t.emit(&e);
             steps += 1;
             if dead {
